@@ -1112,7 +1112,10 @@ func runStress(h *H, c *Conc, seed, n int) int {
 	rounds := 0
 	bad := 0
 	for rounds < n {
-		cs := g.randomCase(2 + g.r.Intn(3))
+		cs := g.randomCase(2 + g.r.Intn(2))
+		for len(cs.lines())-len(cs.setup) > 4 {
+			cs = g.randomCase(2 + g.r.Intn(2))
+		}
 		if g.r.Intn(3) == 0 {
 			cs = g.curated()[g.r.Intn(len(g.curated()))]
 		}
